@@ -326,7 +326,12 @@ impl Plugin for FileTransferPlugin {
                                 recvd_packages: 0,
                                 recvd_payload: 0,
                                 file_data: Vec::with_capacity(if keep_data {
-                                    (nr_packages * buffer_size) as usize
+                                    // the announced sizes can be corrupt/invalid (would overflow or lead to
+                                    // huge allocations) so we limit the upfront allocation. The vec grows if needed.
+                                    std::cmp::min(
+                                        nr_packages.saturating_mul(buffer_size),
+                                        16 * 1024 * 1024,
+                                    ) as usize
                                 } else {
                                     0
                                 }),
